@@ -7,7 +7,9 @@
    on or off.  Equalities are Leibniz equalities of values built from the uninterpreted operations, i.e.
    identity of operation trees: "bit for bit". *)
 From Coq Require Import List Arith Bool ZArith.
-From DuneV Require Import C09_Model C09_Spec C09_Proofs C09_Proofs_LU C09_Proofs_Swap C09_Proofs_Witness.
+From Coq Require Import QArith.
+From DuneV Require Import Params_gen C09_Model C09_Spec C09_Proofs C09_Proofs_LU C09_Proofs_Swap C09_Proofs_Witness.
+Local Close Scope Q_scope.
 Import ListNotations.
 
 (* ---------------------------------------------------------------- operator table *)
@@ -77,6 +79,52 @@ Theorem C09_mask_reductions : forall m : list bool,
   c09_allfalse m = negb (c09_anytrue m).
 Proof. exact P_reductions. Qed.
 Print Assumptions C09_mask_reductions.
+
+(* the mixed vector-scalar forms of every operator family (v @ s, s @ v, v @= s) are the vector-vector forms applied to the broadcast
+   scalar (interface.hh: "arbitrary combinations of V and S"; LoopSIMD(Scalar<T>) converting constructor / assignment from a scalar) *)
+Theorem C09_scalar_forms_are_broadcast : forall (X Y Z : Type) (f : X -> Y -> Z) (g : X -> Y -> X) (v : list X) (w : list Y) (sx : X) (sy : Y),
+  c09_map_vs f v sy = c09_map2 f v (c09_bcast (c09_lanes v) sy) /\
+  c09_map_sv f sx w = c09_map2 f (c09_bcast (c09_lanes w) sx) w /\
+  c09_assign_vs g v sy = c09_assign_vv g v (c09_bcast (c09_lanes v) sy).
+Proof. exact P_scalar_forms_are_broadcast. Qed.
+Print Assumptions C09_scalar_forms_are_broadcast.
+
+(* cond(bool, a, b), mask(v), maskOr, maskAnd, implCast (defaults.hh), lane by lane, with their lane counts *)
+Theorem C09_interface_lanes : forall (X Y : Type) (dx : X) (dy : Y) (nx : X -> bool) (ny : Y -> bool) (v : list X) (w : list Y) (a b : list X) (m : bool) (S l : nat),
+  length v = S -> length w = S -> l < S ->
+  c09_lane dx l (c09_cond_bool m a b) = (if m then c09_lane dx l a else c09_lane dx l b) /\
+  c09_lanes (c09_mask nx v) = S /\ c09_lane false l (c09_mask nx v) = nx (c09_lane dx l v) /\
+  c09_lanes (c09_maskor nx ny v w) = S /\ c09_lane false l (c09_maskor nx ny v w) = nx (c09_lane dx l v) || ny (c09_lane dy l w) /\
+  c09_lanes (c09_maskand nx ny v w) = S /\ c09_lane false l (c09_maskand nx ny v w) = nx (c09_lane dx l v) && ny (c09_lane dy l w) /\
+  c09_lane dx l (c09_implcast dx S v) = c09_lane dx l v.
+Proof. exact P_interface_lanes. Qed.
+Print Assumptions C09_interface_lanes.
+
+(* horizontal max(v) / min(v) of defaults.hh (m = lane 0; for l>=1: if(m < lane l) m = lane l): the result is one of the lanes, and if `<`
+   is a strict weak order on the lanes (no NaN) no lane is greater; min is the same loop with the comparison turned round *)
+Theorem C09_horizontal_max_min : forall (X : Type) (lt : X -> X -> bool) (d : X) (v : list X), v <> [] ->
+  In (c09_hmax lt d v) v /\
+  ((forall a b c, lt a b = false -> lt a c = true -> lt c b = false) -> (forall a, lt a a = false) ->
+   forall x, In x v -> lt (c09_hmax lt d v) x = false) /\
+  c09_hmin lt d v = c09_hmax (fun a b => lt b a) d v.
+Proof. exact P_horizontal_max_min. Qed.
+Print Assumptions C09_horizontal_max_min.
+
+(* every operator, reduction and lane() on a nested LoopSIMD<LoopSIMD<T,m>,S> is the flat operation on its S*m lanes in memory order;
+   broadcasting a scalar into a nested type fills all S*m lanes *)
+Theorem C09_nested_ops : forall (X Y Z : Type) (f : X -> Y -> Z) (d : X) (m : nat) (v : list (list X)) (w : list (list Y)) (k : list (list bool)),
+  Forall2 (fun a b => length a = length b) v w -> (forall x, In x v -> length x = m) ->
+  concat (c09_nested_map2 f v w) = c09_map2 f (concat v) (concat w) /\
+  c09_nested_all_lanes d m v = concat v /\
+  c09_nested_anytrue k = c09_anytrue (concat k) /\
+  c09_nested_alltrue k = c09_alltrue (concat k) /\
+  c09_nested_lanes (length v) m = length (concat v).
+Proof. exact P_nested_ops. Qed.
+Print Assumptions C09_nested_ops.
+
+Theorem C09_nested_broadcast : forall (X : Type) (S m : nat) (x : X), concat (c09_bcast S (c09_bcast m x)) = c09_bcast (S * m) x.
+Proof. exact P_nested_bcast. Qed.
+Print Assumptions C09_nested_broadcast.
 
 (* nested SIMD-of-SIMD: lane(l % lanes<V>(), v[l / lanes<V>()]) is element l in memory order, indices in range *)
 Theorem C09_nested_lane : forall (X : Type) (d : X) (m : nat) (v : list (list X)) (l : nat),
@@ -162,6 +210,57 @@ Theorem C09_unperm_loops_are_gather : forall (T : Type) (zero : T) (W n : nat) (
 Proof. exact P_unperm_step_loops. Qed.
 Print Assumptions C09_unperm_loops_are_gather.
 
+(* facts the code establishes itself (not hypotheses): every lane's pivot row at step i is a row i <= p < n ... *)
+Theorem C09_pivot_in_range : forall (T U : Type) (absr : T -> U) (gt : U -> U -> bool) (zero : T) (W : nat)
+                                    (A : list (list (list T))) (n i : nat) (pm : list U) (l : nat), i < n -> l < W ->
+  let p := nth l (snd (c09_v_pivsearch T U absr gt zero W A i (seq (S i) (n - S i)) pm (c09_vbcast W i))) 0 in
+  i <= p < n.
+Proof. exact P_pivot_in_range. Qed.
+Print Assumptions C09_pivot_in_range.
+
+(* ... hence, with at least one lane, the loop body of luDecomposition with its row / rhs swaps written as the literal loops over single
+   lanes of single entries IS (Leibniz-equal to) the loop body of the model: no side condition left *)
+Theorem C09_pivot_step_literal_loops : forall (T U : Type) (mul : T -> T -> T) (absr : T -> U) (gt : U -> U -> bool) (nz : U -> bool) (zero one mone : T)
+                                  (W : nat) (dp : bool) (n i : nat) (st : c09_vst T), i < n -> 0 < W ->
+  c09_v_pivot_step_loops T U mul absr gt nz zero one mone W dp n i st = c09_v_pivot_step T U mul absr gt nz zero one mone W dp n i st.
+Proof. exact P_pivot_step_loops. Qed.
+Print Assumptions C09_pivot_step_literal_loops.
+
+(* ... and every entry of the pivot record that invert's column un-permutation reads is a column number below n, in both modes, also when the
+   run ends in FMatrixError *)
+Theorem C09_pivot_record_in_range : forall (T U : Type) (sub mul div : T -> T -> T) (absr : T -> U) (gt : U -> U -> bool) (nz : U -> bool)
+                                           (zero one mone : T) (W : nat) (throwEarly doPivoting : bool) (n : nat) (A : list (list (list T))) (b : list (list T)),
+  match c09_v_lu T U sub mul div absr gt nz zero one mone W throwEarly doPivoting n A b with
+  | C09_Ok st' | C09_FMatrixError st' => forall r l, r < n -> l < W -> nth l (nth r (c09_vpiv T st') []) 0 < n
+  end.
+Proof. exact P_pivot_record_in_range. Qed.
+Print Assumptions C09_pivot_record_in_range.
+
+(* the whole column un-permutation of invert with the literal loops (for i = n-1..0: for l: if(i != pi) for j: swap ...), entry by entry *)
+Theorem C09_unperm_whole_literal_loops : forall (T : Type) (zero : T) (W n : nat) (piv : list (list nat)) (cols : list nat) (M M' : list (list (list T))),
+  (forall i, In i cols -> i < n) -> (forall i l, i < n -> l < W -> nth l (nth i piv []) 0 < n) ->
+  (forall r c l, r < n -> c < n -> l < W -> c09_get3 T zero M r c l = c09_get3 T zero M' r c l) ->
+  forall r c l, r < n -> c < n -> l < W ->
+  c09_get3 T zero (c09_v_unperm_loops T zero W n piv cols M) r c l = c09_get3 T zero (c09_v_unperm T zero W n piv cols M') r c l.
+Proof. exact P_unperm_loops. Qed.
+Print Assumptions C09_unperm_whole_literal_loops.
+
+(* nonsingularLanes accumulates over ALL steps: a lane once marked singular is singular in the result of determinant's LU run (which never throws) ... *)
+Theorem C09_mask_accumulates : forall (T U : Type) (sub mul div : T -> T -> T) (absr : T -> U) (gt : U -> U -> bool) (nz : U -> bool) (zero one mone : T)
+                                      (W l : nat) (doPivoting : bool) (n rem i : nat) (st : c09_vst T),
+  l < W -> nth l (c09_vok T st) false = false ->
+  exists st', c09_v_loop T U sub mul div absr gt nz zero one mone W false doPivoting n rem i st = C09_Ok st' /\ nth l (c09_vok T st') false = false.
+Proof. exact P_mask_accumulates. Qed.
+Print Assumptions C09_mask_accumulates.
+
+(* ... and the determinant of a lane whose scalar run finds a zero pivot is exactly field_type(0), whatever the other lanes do *)
+Theorem C09_det_singular_lane_zero : forall (T U : Type) (sub mul div : T -> T -> T) (absr : T -> U) (gt : U -> U -> bool) (nz : U -> bool) (zero one mone : T)
+                                            (W : nat) (doPivoting : bool) (n : nat) (A : list (list (list T))) (l : nat) s', l < W ->
+  c09_s_lu T U sub mul div absr gt nz zero one mone false doPivoting n (c09_lane_mat T zero l A) [] = C09_Ok s' -> c09_sok T s' = false ->
+  nth l (c09_v_det T U sub mul div absr gt nz zero one mone W doPivoting n A) zero = zero.
+Proof. exact P_det_singular_lane_zero. Qed.
+Print Assumptions C09_det_singular_lane_zero.
+
 (* solve (n >= 4 branch): per lane the scalar solution, or FMatrixError because some lane is singular *)
 Theorem C09_solve_lanes : forall (T U : Type) (sub mul div : T -> T -> T) (absr : T -> U) (gt : U -> U -> bool) (nz : U -> bool)
                                  (zero one mone : T) (W : nat) (doPivoting : bool) (n : nat) (A : list (list (list T))) (b : list (list T)),
@@ -216,6 +315,51 @@ Theorem C09_det_lanes_before_fix_partial : forall (T U : Type) (sub mul div : T 
 Proof. exact P_det_lanes_before_fix_partial. Qed.
 Print Assumptions C09_det_lanes_before_fix_partial.
 
+(* the constants re-read from densematrix.hh on every run (tools/params.d/C09.py -> Params_gen.v) are the ones the model is written for:
+   closed forms up to rows() = 3 in determinant / solve / invert (the dispatch of c09_*_full), throwEarly = true / true / false
+   (used directly by c09_*_solve / invert / det).  An edit of the source changes Params_gen.v and re-checks every theorem below *)
+Theorem C09_params_match_model :
+  c09_param_closed_form_max_det = 3 /\ c09_param_closed_form_max_solve = 3 /\ c09_param_closed_form_max_invert = 3 /\
+  c09_param_throw_early_solve = true /\ c09_param_throw_early_invert = true /\ c09_param_throw_early_det = false.
+Proof. exact P_params_match_model. Qed.
+Print Assumptions C09_params_match_model.
+
+(* ---------------------------------------------------------------- the complete member functions (every n) *)
+
+(* DenseMatrix::determinant / solve / invert with their dispatch on rows(): closed forms for 1, 2, 3 (no singularity test there), LU otherwise.
+   For EVERY n: lane l of the W-lane call is the scalar call on the lane-l matrix (add, neg: two more uninterpreted operations) *)
+Theorem C09_det_full_lanes : forall (T U : Type) (add sub mul div : T -> T -> T) (absr : T -> U) (gt : U -> U -> bool) (nz : U -> bool)
+                                    (zero one mone : T) (W : nat) (doPivoting : bool) (n : nat) (A : list (list (list T))) (l : nat),
+  l < W ->
+  nth l (c09_v_det_full T U add sub mul div absr gt nz zero one mone W doPivoting n A) zero
+  = c09_s_det_full T U add sub mul div absr gt nz zero one mone doPivoting n (c09_lane_mat T zero l A).
+Proof. exact P_det_full_lanes. Qed.
+Print Assumptions C09_det_full_lanes.
+
+Theorem C09_solve_full_lanes : forall (T U : Type) (add sub mul div : T -> T -> T) (absr : T -> U) (gt : U -> U -> bool) (nz : U -> bool)
+                                      (zero one mone : T) (W : nat) (doPivoting : bool) (n : nat) (A : list (list (list T))) (b : list (list T)),
+  match c09_v_solve_full T U add sub mul div absr gt nz zero one mone W doPivoting n A b with
+  | C09_Ok x => forall l, l < W ->
+      c09_s_solve_full T U add sub mul div absr gt nz zero one mone doPivoting n (c09_lane_mat T zero l A) (c09_lane_vec T zero l b)
+      = C09_Ok (c09_lane_vec T zero l x)
+  | C09_FMatrixError _ => exists l e, l < W /\
+      c09_s_solve_full T U add sub mul div absr gt nz zero one mone doPivoting n (c09_lane_mat T zero l A) (c09_lane_vec T zero l b)
+      = C09_FMatrixError e
+  end.
+Proof. exact P_solve_full_lanes. Qed.
+Print Assumptions C09_solve_full_lanes.
+
+Theorem C09_invert_full_lanes : forall (T U : Type) (add sub mul div : T -> T -> T) (neg : T -> T) (absr : T -> U) (gt : U -> U -> bool) (nz : U -> bool)
+                                       (zero one mone : T) (W : nat) (doPivoting : bool) (n : nat) (A : list (list (list T))),
+  match c09_v_invert_full T U add sub mul div neg absr gt nz zero one mone W doPivoting n A with
+  | C09_Ok B => forall l, l < W ->
+      c09_s_invert_full T U add sub mul div neg absr gt nz zero one mone doPivoting n (c09_lane_mat T zero l A) = C09_Ok (c09_lane_mat T zero l B)
+  | C09_FMatrixError _ => exists l e, l < W /\
+      c09_s_invert_full T U add sub mul div neg absr gt nz zero one mone doPivoting n (c09_lane_mat T zero l A) = C09_FMatrixError e
+  end.
+Proof. exact P_invert_full_lanes. Qed.
+Print Assumptions C09_invert_full_lanes.
+
 (* ---------------------------------------------------------------- products and norms *)
 
 (* DenseMatrix::mv on W-lane numbers: every lane is the scalar product of that lane (add, mul uninterpreted) *)
@@ -224,6 +368,31 @@ Theorem C09_mv_lanes : forall (T : Type) (add mul : T -> T -> T) (zero : T) (W :
   c09_lane_vec T zero l (c09_v_mv T add mul zero W A x) = c09_s_mv T add mul zero (c09_lane_mat T zero l A) (c09_lane_vec T zero l x).
 Proof. exact P_mv_lanes. Qed.
 Print Assumptions C09_mv_lanes.
+
+(* umv, mmv, usmv, mtv and the vector dot product *)
+Theorem C09_products_lanes : forall (T : Type) (add sub mul : T -> T -> T) (zero : T) (W : nat)
+                                    (A : list (list (list T))) (x y : list (list T)) (alpha : list T) (n l : nat), l < W ->
+  c09_lane_vec T zero l (c09_v_umv T add mul zero W A x y) = c09_s_umv T add mul (c09_lane_mat T zero l A) (c09_lane_vec T zero l x) (c09_lane_vec T zero l y) /\
+  c09_lane_vec T zero l (c09_v_mmv T sub mul zero W A x y) = c09_s_mmv T sub mul (c09_lane_mat T zero l A) (c09_lane_vec T zero l x) (c09_lane_vec T zero l y) /\
+  c09_lane_vec T zero l (c09_v_usmv T add mul zero W alpha A x y)
+    = c09_s_usmv T add mul (nth l alpha zero) (c09_lane_mat T zero l A) (c09_lane_vec T zero l x) (c09_lane_vec T zero l y) /\
+  c09_lane_vec T zero l (c09_v_mtv T add mul zero W n A x) = c09_s_mtv T add mul zero n (c09_lane_mat T zero l A) (c09_lane_vec T zero l x) /\
+  nth l (c09_v_dot T add mul zero W x y) zero = c09_s_dot T add mul zero (c09_lane_vec T zero l x) (c09_lane_vec T zero l y).
+Proof. exact P_products_lanes. Qed.
+Print Assumptions C09_products_lanes.
+
+(* one_norm, two_norm2, two_norm, frobenius_norm2, frobenius_norm and DenseVector::infinity_norm (both HasNaN variants; abs, abs2, sqrt, max uninterpreted) *)
+Theorem C09_norms_lanes : forall (T U : Type) (zero : T) (absr abs2 : T -> U) (uadd umul udiv : U -> U -> U) (ult : U -> U -> bool) (usqrt : U -> U)
+                                 (uzero uone : U) (W : nat) (A : list (list (list T))) (x : list (list T)) (hasNaN : bool) (l : nat), l < W ->
+  nth l (c09_v_one_norm T U zero absr uadd uzero W x) (c09_nU T U zero absr) = c09_s_one_norm T U absr uadd uzero (c09_lane_vec T zero l x) /\
+  nth l (c09_v_two_norm2 T U zero absr abs2 uadd uzero W x) (c09_nU T U zero absr) = c09_s_two_norm2 T U abs2 uadd uzero (c09_lane_vec T zero l x) /\
+  nth l (c09_v_two_norm T U zero absr abs2 uadd usqrt uzero W x) (c09_nU T U zero absr) = c09_s_two_norm T U abs2 uadd usqrt uzero (c09_lane_vec T zero l x) /\
+  nth l (c09_v_frobenius_norm2 T U zero absr abs2 uadd uzero W A) (c09_nU T U zero absr) = c09_s_frobenius_norm2 T U abs2 uadd uzero (c09_lane_mat T zero l A) /\
+  nth l (c09_v_frobenius_norm T U zero absr abs2 uadd usqrt uzero W A) (c09_nU T U zero absr) = c09_s_frobenius_norm T U abs2 uadd usqrt uzero (c09_lane_mat T zero l A) /\
+  nth l (c09_v_vec_infnorm T U zero absr uadd umul udiv ult uzero uone W hasNaN x) (c09_nU T U zero absr)
+    = c09_s_vec_infnorm T U absr uadd umul udiv ult uzero uone hasNaN (c09_lane_vec T zero l x).
+Proof. exact P_norms_lanes. Qed.
+Print Assumptions C09_norms_lanes.
 
 (* infinity_norm: loop.hh (since 1037165) forwards HasNaN<LoopSIMD<T,S,A>> to HasNaN<T>, so the W-lane type takes the variant
    hasNaN = HasNaN<T> of its scalar type; both variants are lane-wise *)
@@ -285,3 +454,21 @@ Example C09_example_assign_alias :
   c09_assign_vs_lane_byref Nat.sub 0 [5; 7; 9] 0 = [0; 7; 9] /\
   c09_assign_vs_lane_byref Nat.sub 0 [5; 7; 9] 2 = fst (c09_assign_vs_lane Nat.sub 0 [5; 7; 9] 2).
 Proof. exact P_assign_alias_values. Qed.
+
+(* closed forms: 3x3 determinants (18, -3) of two lanes, a 2x2 inverse per lane, a 3x3 solve that completes *)
+Example C09_example_closed_forms :
+  c09_v_det_full c09w_T c09w_T c09w_add c09w_sub c09w_mul c09w_div c09w_abs c09w_gt c09w_nz (c09w_q 0%Z) (c09w_q 1%Z) (c09w_q (-1)%Z) 2 true 3 c09w_M3
+    = [c09w_q 18%Z; c09w_q (-3)%Z] /\
+  c09_s_det_full c09w_T c09w_T c09w_add c09w_sub c09w_mul c09w_div c09w_abs c09w_gt c09w_nz (c09w_q 0%Z) (c09w_q 1%Z) (c09w_q (-1)%Z) true 3
+    (c09_lane_mat c09w_T (c09w_q 0%Z) 1 c09w_M3) = c09w_q (-3)%Z /\
+  c09_v_invert_full c09w_T c09w_T c09w_add c09w_sub c09w_mul c09w_div c09w_neg c09w_abs c09w_gt c09w_nz (c09w_q 0%Z) (c09w_q 1%Z) (c09w_q (-1)%Z) 2 true 2 c09w_M2
+    = C09_Ok [[[Some (3 # 5); c09w_q 0%Z]; [Some (-1 # 5); c09w_q 1%Z]]; [[Some (-1 # 5); c09w_q 1%Z]; [Some (2 # 5); c09w_q 0%Z]]]%Q /\
+  (exists x, c09_v_solve_full c09w_T c09w_T c09w_add c09w_sub c09w_mul c09w_div c09w_abs c09w_gt c09w_nz (c09w_q 0%Z) (c09w_q 1%Z) (c09w_q (-1)%Z) 2 true 3 c09w_M3
+               [[c09w_q 1%Z; c09w_q 1%Z]; [c09w_q 0%Z; c09w_q 2%Z]; [c09w_q 1%Z; c09w_q 0%Z]] = C09_Ok x).
+Proof. exact P_example_closed_forms. Qed.
+
+(* `<` on nat satisfies the order hypotheses of C09_horizontal_max_min *)
+Example C09_example_hmax :
+  (forall a b c, Nat.ltb a b = false -> Nat.ltb a c = true -> Nat.ltb c b = false) /\ (forall a, Nat.ltb a a = false) /\
+  c09_hmax Nat.ltb 0 [3; 7; 5] = 7 /\ c09_hmin Nat.ltb 0 [3; 7; 2; 5] = 2.
+Proof. exact P_example_hmax. Qed.
